@@ -511,6 +511,15 @@ def run_plan(rng, out, vendor):
             ctr = Signal(8)
             m.d.sync += ctr.eq(ctr + 1)
             acc = Signal(8)
+            # a clock generated and constrained inside a sub-module (a PLL wrapper constraining its own output)
+            from amaranth.hdl import Period
+            sub = Module()
+            pllclk = Signal(name="pllclk")
+            inner = Signal(4, name="pllctr")
+            sub.d.sync += inner.eq(inner + pllclk)
+            sub.d.comb += pllclk.eq(inner[1])
+            m.submodules.pll = sub
+            platform.add_clock_constraint(pllclk, Period(MHz=75))
             k = 0
             for r in use:
                 port = platform.request(r["name"], r["number"], dir="-")
@@ -612,6 +621,16 @@ def run_plan(rng, out, vendor):
             if nm in expected and nm not in seen:
                 bad("used-port-bit-not-constrained", port=nm, declared=expected[nm])
     if vendor != "gowin":
+        # the net clock declared inside the sub-module: one line naming it, with its frequency
+        net_lines = [ln.strip() for ln in text.splitlines() if "pllclk" in ln]
+        ok = False
+        for ln in net_lines:
+            nums = re.findall(r"[-+]?\d+\.?\d*(?:[eE][-+]?\d+)?", ln.replace("pllclk", ""))
+            ok = ok or any(abs(float(x) * (1e6 if vendor == "ice40" else 1) - 75e6) < 75 for x in nums)
+        out["extra"]["net_clock_lines_checked"] = out["extra"].get("net_clock_lines_checked", 0) + 1
+        if len(net_lines) != 1 or not ok:
+            bad("net-clock-declared-in-a-submodule-missing-or-wrong", lines=net_lines[:3], declared_hz=75e6)
+        freqs = [(nm, hz) for (nm, hz) in freqs if "pllclk" not in nm]
         fseen = {}
         for name, hz in freqs:
             if name in fseen:
